@@ -92,6 +92,15 @@ theorem quiescent_terminates (batches : List (List Nat)) (es : List Ev)
     s'.pc = .done ∨ s'.pc = .failed :=
   Proofs.Realign.drain_terminates' (Proofs.Realign.inv_reach batches es) hq
 
+/-- C13 "never hangs", independent of the surviving workers (the repair of K3): once some worker has exited with a non-zero
+    status, the parent terminates on its own — a possibly pending check, reads while the pipe is non-empty, one timeout, one check —
+    whatever the other workers do, even if they never move again (e.g. blocked for ever on a lock the dead worker held) -/
+theorem failed_worker_terminates (batches : List (List Nat)) (es : List Ev)
+    (hf : anyFailed (run (init batches) es) = true) :
+    let s' := run (run (init batches) es) (.pCheck :: parentDrain (run (init batches) es))
+    s'.pc = .done ∨ s'.pc = .failed :=
+  Proofs.Realign.drain_failed_terminates hf
+
 /-- every worker makes only finitely many moves: the number of enabled worker events in any schedule is bounded by
     `3 * messages + workers` (put, flush per message, one exit/death per worker) — workers cannot run forever -/
 def workMeasure (s : St) : Nat :=
